@@ -30,7 +30,10 @@ reserved_entrypoints = {
 def has_parameters(content: Dict[str, Any]) -> bool:
     if not content.get('parameters'):
         return False
-    return not (content['parameters']['entrypoint'] == 'default' and content['parameters']['value'] == {'prim': 'Unit'})
+    # NOTE: decide on the forged form, Unit can also be written with empty args/annots
+    return not (
+        content['parameters']['entrypoint'] == 'default' and forge_micheline(content['parameters']['value']) == b'\x03\x0b'
+    )
 
 
 def forge_entrypoint(entrypoint) -> bytes:
